@@ -2572,7 +2572,7 @@ impl Formatter {
     if self.html {
       format!("<span class=\"mech-map\"><span class=\"mech-start-brace\">{{</span>{}<span class=\"mech-end-brace\">}}</span></span>",src)
     } else {
-      format!("{{{}}}", src)
+      if node.elements.is_empty() { "{:}".to_string() } else { format!("{{{}}}", src) }
     }
   }
 
